@@ -1029,7 +1029,9 @@ class System(StoredHw, Datetime, Logbook, SystemBase):
         # FC: 00-C8 (no F9, FA), TODO: deprecate as FC only?
         if not self._heat_demands:
             return None
-        return {k: v.payload["heat_demand"] for k, v in self._heat_demands.items()}
+        return {
+            k: v.payload.get("heat_demand") for k, v in self._heat_demands.items()
+        }  # no such key if the actuator reports a fault
 
     @property
     def relay_demands(self) -> dict[str, Any] | None:  # 0008
